@@ -5,6 +5,7 @@ package main
 
 import (
 	"fmt"
+	"regexp"
 	"sort"
 	"strings"
 
@@ -33,7 +34,15 @@ type Verdict struct {
 	C16Skips  []string
 }
 
+// x/net/html compares the DOCTYPE name case-sensitively ("<!DOCTYPE HTML>" puts it into quirks mode), whereas the
+// standard's tokenizer lower-cases the name. Normalise the name before parsing so that the tree builder
+// runs in the mode the standard prescribes.
+var doctypeNameRe = regexp.MustCompile(`(?i)(<!doctype[ \t\n\f\r]+)html`)
+
 func parseHTML(src string, fragment bool) ([]*html.Node, error) {
+	if loc := doctypeNameRe.FindStringSubmatchIndex(src); loc != nil {
+		src = src[:loc[3]] + "html" + src[loc[3]+4:]
+	}
 	opt := html.ParseOptionEnableScripting(false)
 	if fragment {
 		ctx := &html.Node{Type: html.ElementNode, Data: "body", DataAtom: atom.Body}
@@ -457,8 +466,8 @@ func Judge(c *Case) (v Verdict) {
 		return
 	}
 	if err != nil {
-		if c.Registry == "real" || c.NoTree {
-			v.NotJudged = "minify-error(sub-minifier or malformed input)"
+		if c.NoTree {
+			v.NotJudged = "minify-error-on-malformed-input"
 			return
 		}
 		v.Judged = true
